@@ -453,3 +453,34 @@ theorem degrees_ge_three {ds : DSetData} {g : Geom} {c : Ctx} (h : mkCtx ds g = 
     _ = c.rs.getD k 0 * vs.getD k 0 := Nat.mul_comm _ _
 
 end DSymVerif.SymGen
+
+namespace DSymVerif.SymGen
+open DSymVerif.DS DSymVerif.D2 DSymVerif.SpecC08
+
+/-- **K ≤ 4** on every D-set of the domain, for every vector with positive entries; hence the upper
+    end `4 * CURV_FAC` of the spherical window excludes nothing -/
+theorem curvQ_le_four {ds : DSetData} {g : Geom} {c : Ctx} (h : mkCtx ds g = .ok c) (hds : ValidSet ds)
+    (hdim : ds.dim = 2) (hfar : FarCommute ds) (hconn : ds.viewSimple.isConnected = true)
+    (h1 : 1 ≤ ds.size) {vs : List Nat} (hp : Pos c vs) : curvQ c vs ≤ 4 := by
+  obtain ⟨hdd, _⟩ := mkCtx_fields h
+  have hgood := good2d_pos h hds hdim hfar hconn h1 hp .simpleSym
+  have hcn : (⟨emittedSym c vs, .simpleSym⟩ : Sym).view.isConnected = true := by
+    show c.dset.viewSimple.isConnected = true; rw [hdd]; exact hconn
+  obtain ⟨hcurv, _⟩ := curvature_emitted h hds hdim hfar vs hp.1 hp.2 .simpleSym
+  obtain ⟨o', ho'⟩ := orbifoldSymbol_total hgood hcn
+  obtain ⟨o, hx⟩ := symbolCensus_of_parity hgood (parityMonitor_holds hgood ho')
+  obtain ⟨K, hKe, hKv⟩ := gauss_bonnet_census hgood hx
+  rw [hcurv] at hKe
+  have hKq : curvQ c vs = 2 * chiQ (orbOf o) := by
+    rw [← hKv, ← Outcome.ok.inj hKe, Frac.toRat_ofRat]
+  have hC := sum_ge_half_len o.cones (fun v hv => mem_conesOf_gt (hx.cones.mem_iff.1 hv))
+  have hF := sum_ge_half_len o.bnds.flatten (fun v hv => mem_cornersOf_gt (hx.corners.mem_iff.1 hv))
+  rw [hKq, chiQ_flat]
+  unfold chiFlat
+  have h0 : (0 : ℚ) ≤ ((orbOf o).bnds.length + 2 * (orbOf o).handles + (orbOf o).caps : Nat) := by positivity
+  have hC0 : (0:ℚ) ≤ (o.cones.length : ℚ) / 2 := by positivity
+  have hF0 : (0:ℚ) ≤ (o.bnds.flatten.length : ℚ) / 2 := by positivity
+  show 2 * (2 - (o.cones.map dq).sum - _ - (o.bnds.flatten.map dq).sum / 2) ≤ 4
+  linarith
+
+end DSymVerif.SymGen
